@@ -17,14 +17,14 @@ func TestProp(t *testing.T) {
 	pbt.Main(t, pbt.Spec{
 		ID: "C29",
 		Rule: "generated schedules (<=30 steps, 1-3 keys) over a mock clock: reqcache = start/complete(success|error|not-found)/advance against dedup.RequestCache with 1-2 workers and gated requests; " +
-			"limiter = call/release-parked-caller/finish(ttl)/advance against dedup.Limiter with callers parked between task lookup and getOutput and a gated runner; " +
+			"limiter = call/release-parked-caller/finish(ttl)/advance/pair against dedup.Limiter with callers parked between task lookup and getOutput (and, in a pair step, two callers held between a missed lookup and the slow path) and a gated runner; " +
 			"trap = concurrent Trap callers/finish/advance against dedup.IntervalTrap with a gated task. " +
 			"Compared: a per-key in-flight counter inside the gate (must never exceed 1; total never above NumWorkers) and every Start/Run/Trap result against a reference model written from the statement " +
 			"(pending => ErrRequestPending, unexpired cached error/output => that value and no execution, expired => a new execution, waiting callers get the run's output, ErrWorkersBusy leaves the key startable, trap runs at most once per interval). " +
 			"Non-trivial: reqcache = >=1 start answered from pending/cached-error state and >=2 executions; limiter = >=1 caller answered without an execution of its own and >=1 execution; trap = >=1 run and >=1 declined Trap. Distinct by case hash.",
 		Assumptions: []string{
 			"reference models of RequestCache, Limiter and IntervalTrap written from the property statement and the package documentation",
-			"interleavings are explored at the granularity of the gates and of the limiter.afterLookup scheduling point; races inside a critical section are not visible",
+			"interleavings are explored at the granularity of the gates and of the limiter.afterLookup / limiter.beforeSlowPath scheduling points; races inside a critical section are not visible",
 			"behaviour exactly at a TTL/interval boundary (now == expiry) is accepted either way",
 			"a start for a key whose previous start is still waiting for a worker is not generated (statement silent)",
 		},
